@@ -101,6 +101,7 @@ class Sim13:
         self.calls: list[dict] = []
         self.cycles: list[dict] = []
         self.marks: list[dict] = []
+        self.guard_failures: list[dict] = []
         self.toggle_set: dict[int, Any] = {}       # id(toggle) -> (toggle, set)
         self.sets: dict[int, dict] = {}            # id(set) -> {"inc":, "fn":}
         self.dead: set[int] = set()
@@ -349,7 +350,7 @@ class Sim13:
         incs = [{k: v for k, v in i.items() if not k.startswith("_")} for i in self.incs]
         return {"t_end": t_end, "incs": incs, "toggles": self.toggles, "pcalls": self.pcalls, "ka": self.ka,
                 "touches": self.touches, "calls": self.calls, "cycles": self.cycles, "marks": self.marks,
-                "peering_history": phist, "kex_history": khist, "requests": reqs}
+                "peering_history": phist, "kex_history": khist, "requests": reqs, "guard_failures": self.guard_failures}
 
 
 # =================================================================================================
@@ -496,6 +497,32 @@ def installed(sim: Sim13) -> Iterator[None]:
                                "paused": None if op_paused is None else op_paused.is_on()})
         return await o_pre(**kw)
 
+    # ---- failures of guarded (root / streaming) tasks ---------------------------------------------------
+    from kopf._cogs.aiokits import aiotasks
+    o_guard = aiotasks.guard
+
+    async def guard(coro: Any, name: str, **kw: Any) -> None:
+        async def observed() -> Any:
+            try:
+                return await coro
+            except asyncio.CancelledError:
+                raise
+            except Exception as e:  # noqa: BLE001
+                site = None
+                tb = e.__traceback__
+                while tb is not None:
+                    fn = tb.tb_frame.f_code.co_filename
+                    if "/kopf/" in fn:
+                        site = f"{fn.split('/kopf/')[-1]}:{tb.tb_frame.f_code.co_name}"
+                    tb = tb.tb_next
+                if sim.inc() not in sim.dead:
+                    sim.guard_failures.append({"t": sim.now(), "inc": sim.inc(), "task": name, "exc": type(e).__name__,
+                                               "msg": str(e)[:200], "site": site})
+                raise
+        await o_guard(observed(), name, **kw)
+
+    aiotasks.guard = guard  # type: ignore[assignment]
+
     # ---- watch close times -------------------------------------------------------------------------
     o_close = fakeapi.FakeResponse.close
 
@@ -521,6 +548,7 @@ def installed(sim: Sim13) -> Iterator[None]:
         peering.aiotime, peering.random, peering.asyncio = o_aiotime, o_random, o_asyncio  # type: ignore[assignment]
         processing.process_resource_event = o_pre  # type: ignore[assignment]
         fakeapi.FakeResponse.close = o_close  # type: ignore[assignment]
+        aiotasks.guard = o_guard  # type: ignore[assignment]
 
 
 def run_history(sc: dict, wall_limit: float = 60.0) -> dict:
